@@ -110,6 +110,8 @@ type renv struct {
 	connMu       sync.Mutex // e.conns and connRec.our, read by the sampler in the Stop goroutine
 	sampleOnce   sync.Once
 	openRet      []bool
+	unheldSend   map[int]bool // sends whose hold could not be established (they ran as plain sends)
+	lastUnheld   bool         // set by the macro that has just run
 	exemptRet    []bool
 	heldSendConn map[int]*connRec
 }
@@ -231,7 +233,7 @@ func newREnv(tcp bool, npeers int) (*renv, error) {
 		closedSetCh: make(chan struct{}, 64),
 		dispEnd:     map[int]chan struct{}{}, holdDisp: map[int]chan struct{}{},
 		heldSend: map[int]*lib.Gate{}, heldIn: map[int]*lib.Gate{}, heldStop: map[int]*lib.Gate{},
-		heldMsg: map[int]int{}, heldSendConn: map[int]*connRec{}}
+		heldMsg: map[int]int{}, heldSendConn: map[int]*connRec{}, unheldSend: map[int]bool{}}
 	if tcp {
 		si := newKeyedIdentity(network.NewTCPAddress("127.0.0.1:0"))
 		h, err := network.NewTCPHost(si, suite)
@@ -604,8 +606,14 @@ func (e *renv) runMacro(m mac, seqNo int) error {
 		}
 		if !held {
 			if gate != nil {
+				// The hold could not be established: the Send never came to the schedule point (it
+				// found a usable connection in the table and did not dial, or its registration was
+				// refused before router.registered). That is what happened: the step is recorded as
+				// a plain send, and the release the script has for it later is left out.
 				gate.Release()
 				delete(e.heldSend, idx)
+				e.unheldSend[idx] = true
+				e.lastUnheld = true
 			}
 			if !waitCh(res.done, opDeadline) {
 				return nil
@@ -614,6 +622,9 @@ func (e *renv) runMacro(m mac, seqNo int) error {
 	case "sendrelease":
 		g := e.heldSend[m.A]
 		if g == nil {
+			if e.unheldSend[m.A] {
+				return errSkip
+			}
 			return fmt.Errorf("release of a Send that is not held")
 		}
 		delete(e.heldSend, m.A)
@@ -1098,6 +1109,10 @@ func (e *renv) rebind() bool {
 	return !e.lm.VerifLocalListening(e.r.ServerIdentity.Address)
 }
 
+// errSkip: the macro releases a hold that was never established; it is left out of the script
+// the model is run on.
+var errSkip = fmt.Errorf("skip")
+
 // closeBounded closes a connection while cleaning up (nothing is observed any more): a Close of
 // the code under test that hangs must not hang the harness.
 func closeBounded(c network.Conn) {
@@ -1220,6 +1235,8 @@ func runScript(in input) lib.Case {
 	msgConn := map[int]int{}
 	var scenarioErr string
 	executed := 0
+	skipped := map[int]bool{} // releases of holds that were never established
+	unheld := map[int]bool{}  // held sends that ran as plain sends
 	for i, m := range in.Script {
 		executed = i + 1
 		switch m.Op {
@@ -1230,7 +1247,16 @@ func runScript(in input) lib.Case {
 		case "deliver", "deliverhold":
 			msgConn[m.B] = m.A
 		}
-		if err := e.runMacro(m, i); err != nil {
+		e.lastUnheld = false
+		err := e.runMacro(m, i)
+		if err == errSkip {
+			skipped[i] = true
+			continue
+		}
+		if e.lastUnheld {
+			unheld[i] = true
+		}
+		if err != nil {
 			scenarioErr = fmt.Sprintf("macro %d (%s): %v", i, m.Op, err)
 			break
 		}
@@ -1247,9 +1273,19 @@ func runScript(in input) lib.Case {
 		class += "+cut"
 		script = in.Script[:executed]
 	}
-	ms := make([]string, len(script))
+	// the script the model is run on is the one that was actually executed
+	ms := make([]string, 0, len(script))
 	for i, m := range script {
-		ms[i] = coqMacro(m)
+		if skipped[i] {
+			continue
+		}
+		if unheld[i] {
+			m.Op = "send"
+		}
+		ms = append(ms, coqMacro(m))
+	}
+	if len(unheld) > 0 {
+		class += "+unheld"
 	}
 	coq := fmt.Sprintf("RouterScript %s %s %s", lib.Bool(in.TCP), lib.List(ms), coqRobs(o))
 	return lib.Case{Coq: coq, Class: class, Obs: o, Nontrivial: len(e.conns) > 0,
